@@ -30,7 +30,7 @@ REQUIRES = [
     _ALL_ANCHORS.format(body=f"implies({_at('a', 'b')}.isMark, {_at('a', 'b')}.key != '' and {_at('a', 'b')}.markClass is None)"),
 ]
 LOCALS = {"result": List(MARK2LIGA), "componentAnchors": Dict(INT, List(NA)), "ligatureMarks": List(List(NA))}
-COMMON = dict(props=["C06"], params={"self": Ref("C06_Writer")}, returns=List(MARK2LIGA), requires=REQUIRES, merge_branches=False)
+COMMON = dict(props=["C06"], params={"self": Ref("C06_Writer")}, returns=List(MARK2LIGA), requires=REQUIRES, merge_branches=False, dict_key_positions=False)
 _RT = Runtime(c06rt.stage_cases, lambda d: {"self": c06rt.writer_at(d, "assigned")}, call=lambda fn, a: fn(a["self"]))
 
 # the appended record, position by position (r0: ghost copy of `result` taken when ligatureMarks is created)
@@ -176,7 +176,7 @@ _RES_COUNT = (f"all(result[k].name in {AL} and len(result[k].marks) >= 1 and all
 contract(
     FN,
     name="count",
-    **COMMON,
+    **{**COMMON, "dict_key_positions": True},  # (`n <= max(d.keys())` for every key n goes through the key's position in the key list)
     ensures={"component-count-preserved": _RES_COUNT},
     canaries={"never-empty": "len(result) > 0", "always-one-component": "all(len(result[k].marks) == 1 for k in range(len(result)))"},
     locals={**LOCALS, "r0": List(MARK2LIGA), "ca0": Dict(INT, List(NA))},
